@@ -43,7 +43,8 @@ SortMembers(S) == IF S = {} THEN <<>>
 
 \* omitempty
 IsEmpty(T, V) ==
-  CASE T.k = "bool" -> ~V.b
+  CASE T.k = "rec" -> FALSE
+    [] T.k = "bool" -> ~V.b
     [] T.k \in NumKinds -> V.c \in {"z", "nz"}
     [] T.k \in {"str", "num"} -> V.c = "se"
     [] T.k \in {"ptr", "iface"} -> V = Nil
@@ -69,7 +70,8 @@ CallMarshaler(k, V, o) ==
     \* text that is not JSON passes only when validation is disabled and nothing has to parse it (compaction does)
     [] k = "mjbad" -> IF o.novalid /\ ~o.compact THEN EOk([j |-> "x", c |-> "xmjbad"]) ELSE EErr
 
-Enc(T, V, addr, o) ==
+Enc(T0, V, addr, o) ==
+  LET T == Unfold(T0) IN
   IF T.k = "ptr" THEN
        (IF V = Nil THEN EOk([j |-> "null"]) ELSE Enc(T.e, V.e, TRUE, o))
   ELSE IF T.k \in {"mjp", "mtp"} /\ ~addr THEN
